@@ -2,6 +2,7 @@ mod adv;
 mod crash;
 mod fault;
 mod jfile;
+mod life;
 mod journal;
 mod mt;
 mod store;
@@ -136,6 +137,37 @@ fn main() {
             std::fs::create_dir_all(&a.out_dir).ok();
             let out = if args.iter().any(|x| x == "--tx") { mt::run_mt_tx(&a) } else { mt::run_mt(&a) };
             println!("{}", serde_json::to_string(&json!({"result": out.to_json()})).unwrap());
+        }
+        "life-mt" => {
+            let a = life::LifeMtArgs {
+                out_dir: PathBuf::from(arg(&args, "--out").unwrap_or("/verif/work".into())),
+                seed: arg(&args, "--seed").and_then(|s| s.parse().ok()).unwrap_or(1),
+                runs: arg(&args, "--runs").and_then(|s| s.parse().ok()).unwrap_or(10),
+                threads: arg(&args, "--threads").and_then(|s| s.parse().ok()).unwrap_or(4),
+                ops: arg(&args, "--ops").and_then(|s| s.parse().ok()).unwrap_or(60),
+            };
+            std::fs::create_dir_all(&a.out_dir).ok();
+            let out = life::run_life_mt(&a);
+            println!("{}", serde_json::to_string(&json!({"result": out.to_json()})).unwrap());
+            std::process::exit(0);
+        }
+        "life-replay" => {
+            let a = life::LifeReplayArgs {
+                file: PathBuf::from(arg(&args, "--file").expect("--file")),
+                out_dir: PathBuf::from(arg(&args, "--out").unwrap_or("/verif/work".into())),
+                seed: arg(&args, "--seed").and_then(|s| s.parse().ok()).unwrap_or(1),
+            };
+            std::fs::create_dir_all(&a.out_dir).ok();
+            let out = life::run_life_replay(&a);
+            println!("{}", serde_json::to_string(&json!({"result": out.to_json()})).unwrap());
+            std::process::exit(0);
+        }
+        "life-forced" => {
+            let which = arg(&args, "--scenario").unwrap_or_default();
+            let r = life::run_forced(&which);
+            println!("{}", serde_json::to_string(&json!({"result": r})).unwrap());
+            // a hung drop leaves a stuck thread behind: leave without joining it
+            std::process::exit(0);
         }
         "forced-torn" => {
             let root = util::scratch_root();
